@@ -118,6 +118,11 @@ def expand_chunk(args):
         if not a.startswith('OK '):
             r2 = rm.run3(g, c, p, ph)
             reason = r2[1] if r2[0] == 'REJECT' else r2[0]
+            if r2[0] == 'UNSPEC':
+                # the document does not define the outcome of this stream (e.g. a judgement on application-context
+                # holes): no documented machine to agree with -- counted, not expanded, not an alarm
+                stats['unspecified_and_rejected'] = stats.get('unspecified_and_rejected', 0) + 1
+                continue
             viols.append(({'kind': 'machine_rejects', 'event': ev_kind, 'reason': reason,
                            'allowed_by_documented_rules': allowed_by_rules(child[:-1], en)}, list(child),
                           f'after {list(child)} the checker rejects the emitted bytes (reference: {reason}) although the tracker accepted'))
